@@ -1,4 +1,6 @@
 #!/bin/sh
+# evidence of runs against deliberately broken trees goes to a scratch directory, never to evidence/
+export VERIF_EVIDENCE_DIR="${VERIF_EVIDENCE_DIR:-/verif/sim/target/evidence-scratch}"
 # usage: tools_try_mutant.sh <patch.diff> <check-id> [extra args]   -- applies to /repo, runs check, reverts
 p="$1"; id="$2"; shift 2
 case "$p" in /*) ;; *) p="$(pwd)/$p" ;; esac
